@@ -677,6 +677,10 @@ func (viso *VirtualISO) Read(p []byte) (int, error) {
 }
 
 func (viso *VirtualISO) ReadAt(p []byte, off int64) (int, error) {
+	if off < 0 {
+		return 0, syscall.EINVAL
+	}
+
 	// TODO: make ReadAt able to work from multiple goroutines without data races
 	nw, err := viso.read(p, off)
 	return int(nw), err
